@@ -351,10 +351,30 @@ class Engine:
     def class_id(self, cls):
         return self.reg.class_id(cls)
 
+    def is_abstract(self, cname):
+        ci = self.table.classes.get(cname)
+        if ci is None:
+            return False
+        for c in self.table.mro(cname):
+            cc = self.table.classes.get(c)
+            if cc is None:
+                continue
+            for m, f in cc.methods.items():
+                if f.is_abstract:
+                    # abstract unless overridden by a concrete method earlier in the MRO
+                    impl = self.table.resolve(cname, m)
+                    if impl is not None and impl.is_abstract:
+                        return True
+        return False
+
     def isinstance_ref(self, ref, cls):
         subs = self.table.subclasses(cls) if cls in self.table.classes else [cls]
         if not subs:
             subs = [cls]
+        # abstract classes have no direct instances (closed world), unless nothing concrete exists
+        concrete = [c for c in subs if not self.is_abstract(c)]
+        if concrete:
+            subs = concrete
         return z3.Or(*[S.typeof(ref) == self.class_id(c) for c in subs])
 
     def isinstance_sv(self, sv, cname):
@@ -1072,6 +1092,8 @@ class Engine:
         if ka == "none":
             a, b, ka, kb = b, a, kb, ka
         if kb == "none":
+            if ka == "optseq":
+                return z3.Not(a.items[0])
             if ka == "ref":
                 return a.t == 0 if a.ty.nullable else z3.BoolVal(False)
             if ka == "obj":
@@ -1280,8 +1302,8 @@ class Engine:
             own = attr in ci.methods or attr in self.reg.fields.get(cname, {})
             if own:
                 cands.append(cname)
-        # most general first
-        cands.sort(key=lambda c: len(self.table.mro(c)))
+        # most specific first: the first class the path condition proves wins
+        cands.sort(key=lambda c: -len(self.table.mro(c)))
         for c in cands:
             goal = z3.And(PyObj.is_O_ref(o.t), self.isinstance_ref(PyObj.rval(o.t), c))
             st, _, _, _, _ = self.prover.check(s.pc, goal, want_model=False, timeout_ms=1500)
